@@ -47,6 +47,36 @@ Theorem C15_executecontext_equals_execute :
 Proof. exact execute_context_is_execute. Qed.
 Print Assumptions C15_executecontext_equals_execute.
 
+(* histories: a call on a reused Interpreter depends on its own context only.  Execute starts from
+   (checkCtx = false, stale ctxOps), ExecuteContext from (checkCtx, ctxOps = 0, its own done_at): the
+   result and final state of a call do not depend on the counter state the previous call left, and a
+   whole history of calls ([run_calls]) does not depend on the counter state it starts from *)
+Theorem C15_call_depends_on_its_own_context_only :
+  forall (value St err : Type) (P : prims value St err) (F : list cfunc) (cancel_req : St -> bool)
+         (IO : ioprims value St err),
+  (forall s, cancel_req s = false) ->
+  forall fuel cp m0 prev1 prev2 c,
+  fst (execute_all P F cancel_req IO fuel cp m0 (call_cs prev1 c)) =
+  fst (execute_all P F cancel_req IO fuel cp m0 (call_cs prev2 c)).
+Proof. exact call_independent_of_previous. Qed.
+Print Assumptions C15_call_depends_on_its_own_context_only.
+
+Theorem C15_history_independent_of_previous_context :
+  forall (value St err : Type) (P : prims value St err) (F : list cfunc) (cancel_req : St -> bool)
+         (IO : ioprims value St err),
+  (forall s, cancel_req s = false) ->
+  forall fuel cp reset cs s prev1 prev2,
+  run_calls P F cancel_req IO fuel cp reset s prev1 cs = run_calls P F cancel_req IO fuel cp reset s prev2 cs.
+Proof. exact run_calls_independent_of_previous. Qed.
+Print Assumptions C15_history_independent_of_previous_context.
+
+Example C15_call_initial_states :
+  call_cs (cs_execute_context true (Some 0)) (CallExecuteContext false None) = cs_execute_context false None /\
+  call_cs {| checkCtx := true; ctxOps := 617; clock := 5; done_at := Some 3; ops_at_cancel := 2 |} CallExecute = cs_execute 617 /\
+  call_cs {| checkCtx := true; ctxOps := 617; clock := 5; done_at := Some 3; ops_at_cancel := 2 |} (CallExecuteContext true None)
+    = cs_execute_context true None.
+Proof. repeat split. Qed.
+
 (* ======================= 2. prompt ======================= *)
 
 (* the invariant of the interpreter-wide counter; it holds at the start of ExecuteContext *)
